@@ -1,6 +1,6 @@
 """C19 (narrow): T-LANE/T-PAIR on Memory 16/32-bit access, UTIL-UNIT, ADVANCE, UTIL-HEX, R-NULL on the command handlers."""
 from nk import report
-from rules import idx, lane, util, null, nulstep
+from rules import idx, lane, util, null, nulstep, utilsib
 from . import common
 
 EXPLANATION = (
@@ -9,7 +9,7 @@ EXPLANATION = (
     'UTIL-UNIT: a numeric command address is multiplied by bytes_per_address exactly once and printed addresses are '
     'divided by it. ADVANCE: write/write16/write32 and print/print16/print32 use the accessor of their width and step '
     'by that width. UTIL-HEX: get_hex computes n*16+digit for every admitted character. R-NULL: command handlers do not '
-    'dereference a pointer on the path where they found it null. NUL-STEP: on the edge on which a scanner finds the terminator of the string it scans, no increment of its cursor is reached before the character is tested again (a step over the terminator makes stale bytes of an earlier line part of the input). Not decided: number parsing for every spelling, '
+    'dereference a pointer on the path where they found it null. NUL-STEP: on the edge on which a scanner finds the terminator of the string it scans, no increment of its cursor is reached before the character is tested again (a step over the terminator makes stale bytes of an earlier line part of the input). ALIGN-SIB: printN and writeN test the same alignment expression of the address. SETPC-ORDER: no reset() follows the start-up call that applies -set_pc. Not decided: number parsing for every spelling, '
     'agreement with what the simulators fetch. UTIL-ORDER: every number spelling get_num recognises by its first characters before the `h`-suffix test contains a non-hex character, so a literal ending in h is always read as hexadecimal. R-IDX(ptr) also follows pointers handed out by a helper (`return page->bin + offset`) into the callers that index them.')
 
 
@@ -22,5 +22,5 @@ def run(tier, t0):
                null.null_a(prog, lambda f: f.file in ('core/UtilContext.cpp', 'main/naken_util.cpp', 'common/String.cpp',
                                                      'common/StringTokenizer.cpp'), floor=3),
                idx.ptr_into_array(prog, lambda f: f.file in ('core/Memory.cpp', 'core/Memory.h', 'core/MemoryPage.h', 'core/MemoryPage.cpp', 'core/UtilContext.cpp')),
-               nulstep.nul_step(prog, lambda f: f.file in ('core/UtilContext.cpp', 'main/naken_util.cpp') or f.file.startswith('common/'), 15)]
+               nulstep.nul_step(prog, lambda f: f.file in ('core/UtilContext.cpp', 'main/naken_util.cpp') or f.file.startswith('common/'), 15), utilsib.align_sib(prog), utilsib.setpc_order(prog)]
     return report.finish('C19', tier, results, EXPLANATION, [], common.TRUSTED, t0)
